@@ -502,3 +502,309 @@ EXTRA = {
     "C01": [(_rule_then(identifier_regex_used, "is_identifier_valid matches the name against the identifier regex"), "C01.14")],
     "C05": [(_rule_then(constant_branch_polarity, "the resolver recurses on constants whose value is a constant (positive isinstance)"), "C05.15")],
 }
+
+
+# ---------------------------------------------------------------- second batch
+
+def discovery_results(ctx, rep, rule):
+    ix = ctx.ix
+    DS = "jaqalpaq.core.algorithm.walkers.DiscoverSubcircuits"
+    TV = "jaqalpaq.core.algorithm.walkers.TraceVisitor"
+    dc = _method(ix, DS, "visit_Circuit")
+    ti = _method(ix, TV, "__init__")
+    tb = _method(ix, TV, "visit_BlockStatement")
+    tl = _method(ix, TV, "visit_LoopStatement")
+    rep.rule(rule, "discovery hands back the traces it found (the empty tuple only when there are none); the trace walker starts at trace 0, fires when the objective ends exactly ONE level below the block, and in the zero-count skip clears the objective exactly when the traces are exhausted", floor=4)
+    cons = construct_of(dc, "empty-result")
+    empties = [st for st in iter_stmts(dc.body) if isinstance(st, ast.If) and any(isinstance(s, ast.Return) and isinstance(s.value, (ast.Tuple, ast.List)) and not s.value.elts for s in st.body)]
+    if not empties:
+        rep.ok(rule, cons, "no special case for an empty result", dc.loc())
+    for st in empties:
+        sense = _cmp_sense(st.test)
+        zero = any(isinstance(c, ast.Constant) and c.value == 0 for c in ast.walk(st.test))
+        if (sense == "eq" and zero) or (isinstance(st.test, ast.UnaryOp) and isinstance(st.test.op, ast.Not)):
+            rep.ok(rule, cons, f"`{ast.unparse(st.test)}` -> ()", f"{dc.path}:{st.lineno}")
+        elif sense is None:
+            rep.undecided(rule, cons, f"`{ast.unparse(st.test)}`", f"{dc.path}:{st.lineno}")
+        else:
+            rep.violation(rule, cons, f"`if {ast.unparse(st.test)}: return ()`: a program that HAS subcircuits is reported to have none (it runs and yields no readouts), one without raises IndexError", f"{dc.path}:{st.lineno}")
+    cons = construct_of(ti, "first-trace")
+    for st in iter_stmts(ti.body):
+        if isinstance(st, ast.Assign) and any(isinstance(t, ast.Attribute) and t.attr == "index" for t in st.targets):
+            if isinstance(st.value, ast.Constant) and st.value.value == 0:
+                rep.ok(rule, cons, "index = 0", f"{ti.path}:{st.lineno}")
+            else:
+                rep.violation(rule, cons, f"`{ast.unparse(st)}`: the walk starts at the second trace; the first subcircuit never gets a readout", f"{ti.path}:{st.lineno}")
+    cons = construct_of(tb, "one-level-below")
+    fires = [st for st in ast.walk(tb.node) if isinstance(st, ast.If) and any(isinstance(c, ast.Call) and isinstance(c.func, ast.Attribute) and c.func.attr == "process_trace" for s in st.body for c in ast.walk(s))]
+    for st in fires:
+        t = st.test
+        c = t.operand if isinstance(t, ast.UnaryOp) else t
+        if isinstance(c, ast.Compare) and ast.unparse(c).count("len(") == 2:
+            sides = [c.left, c.comparators[0]]
+            plus = [s for s in sides if isinstance(s, ast.BinOp) and isinstance(s.op, (ast.Add, ast.Sub)) and isinstance(s.right, ast.Constant)]
+            if len(plus) == 1 and plus[0].right.value == 1:
+                addr_side = "address" in ast.unparse(plus[0]) if isinstance(plus[0].op, ast.Add) else "objective" in ast.unparse(plus[0])
+                if addr_side:
+                    rep.ok(rule, cons, f"`{ast.unparse(c)}`", f"{tb.path}:{st.lineno}")
+                else:
+                    rep.violation(rule, cons, f"`{ast.unparse(c)}` adds the level on the wrong side", f"{tb.path}:{st.lineno}")
+            elif plus:
+                rep.violation(rule, cons, f"`{ast.unparse(c)}`: the walker fires for an objective that ends {plus[0].right.value} levels below the block instead of one: it fires on the block that CONTAINS the trace's block and never reaches the trace", f"{tb.path}:{st.lineno}")
+            else:
+                rep.undecided(rule, cons, f"`{ast.unparse(c)}`", f"{tb.path}:{st.lineno}")
+    cons = construct_of(tl, "skip-exhausted")
+    for w in ast.walk(tl.node):
+        if isinstance(w, ast.While):
+            for st in ast.walk(w):
+                if isinstance(st, ast.If) and "traces" in ast.unparse(st.test) and "index" in ast.unparse(st.test):
+                    clears = lambda body: any(isinstance(a, ast.Assign) and isinstance(a.value, ast.Constant) and a.value.value is None and any(isinstance(t_, ast.Attribute) and t_.attr == "objective" for t_ in a.targets) for a in body)
+                    sense = _cmp_sense(st.test)
+                    if sense is None:
+                        rep.undecided(rule, cons, f"`{ast.unparse(st.test)}`", f"{tl.path}:{st.lineno}")
+                    elif (sense == "eq" and clears(st.body)) or (sense == "ne" and clears(st.orelse)):
+                        rep.ok(rule, cons, "objective cleared when index == len(traces)", f"{tl.path}:{st.lineno}")
+                    else:
+                        rep.violation(rule, cons, f"`if {ast.unparse(st.test)}`: the objective is cleared while traces remain (their readouts are lost) and traces[len(traces)] is read when none does", f"{tl.path}:{st.lineno}")
+
+
+def snapshot_comparisons(ctx, rep, rule):
+    ix = ctx.ix
+    vb = _method(ix, "jaqalpaq.core.algorithm.walkers.DiscoverSubcircuits", "visit_BlockStatement")
+    rep.rule(rule, "each element of a state snapshot (a tuple taken before a branch is visited) is compared with the expression it was taken from", floor=1)
+    n = 0
+    for st in ast.walk(vb.node):
+        if isinstance(st, ast.Assign) and isinstance(st.value, ast.Tuple) and len(st.targets) == 1 and isinstance(st.targets[0], ast.Name):
+            snap, elts = st.targets[0].id, [ast.unparse(e) for e in st.value.elts]
+            for c in ast.walk(vb.node):
+                if isinstance(c, ast.Compare) and len(c.ops) == 1:
+                    for a, b in ((c.left, c.comparators[0]), (c.comparators[0], c.left)):
+                        if isinstance(a, ast.Subscript) and isinstance(a.value, ast.Name) and a.value.id == snap and isinstance(a.slice, ast.Constant) and isinstance(a.slice.value, int):
+                            n += 1
+                            cons = construct_of(vb, f"snapshot:{snap}[{a.slice.value}]")
+                            i = a.slice.value
+                            if i < len(elts) and ast.unparse(b) == elts[i]:
+                                rep.ok(rule, cons, f"compared with `{elts[i]}`", f"{vb.path}:{c.lineno}")
+                            else:
+                                rep.violation(rule, cons, f"`{ast.unparse(c)}` compares element {i} of the snapshot (taken from `{elts[i] if i < len(elts) else '?'}`) with `{ast.unparse(b)}`: the test is always true (or always false), so every parallel block with several branches is refused (or none)", f"{vb.path}:{c.lineno}")
+    if n == 0:
+        rep.ok(rule, construct_of(vb, "snapshot"), "no indexed state snapshot")
+
+
+def range_validation_guard(ctx, rep, rule):
+    ix = ctx.ix
+    ri = _method(ix, "jaqalpaq.core.register.Register", "__init__")
+    rep.rule(rule, "the range validation of a literal slice runs exactly when the source's size is a known integer (`size is not None and not isinstance(size, AnnotatedValue)`, positive)", floor=1)
+    cons = construct_of(ri, "range-validation-guard")
+    target = None
+    for st in ast.walk(ri.node):
+        if isinstance(st, ast.If) and any(isinstance(r, ast.Raise) and "out of range" in ast.unparse(r) for b in st.body for r in ast.walk(b)) and ".size" in ast.unparse(st.test):
+            # the outermost such branch (the inner tests compare bounds with the size)
+            if target is None or st.lineno < target.lineno:
+                target = st
+    if target is None:
+        rep.undecided(rule, cons, "validation branch not recognised", ri.loc())
+        return
+    t = target.test
+    not_none = lambda e: isinstance(e, ast.Compare) and isinstance(e.ops[0], ast.IsNot) and isinstance(e.comparators[0], ast.Constant) and e.comparators[0].value is None
+    not_sym = lambda e: isinstance(e, ast.UnaryOp) and isinstance(e.op, ast.Not) and "AnnotatedValue" in ast.unparse(e)
+    if _positive_conjunct(t, not_none) and _positive_conjunct(t, not_sym):
+        rep.ok(rule, cons, f"`{ast.unparse(t)[:80]}`", f"{ri.path}:{target.lineno}")
+    elif isinstance(t, ast.BoolOp) or isinstance(t, ast.UnaryOp):
+        rep.violation(rule, cons, f"`{ast.unparse(t)[:90]}`: the bounds of `map a q[1:9]` are not checked against a known size (the alias is accepted and fails when used), or a symbolic size is compared as a number", f"{ri.path}:{target.lineno}")
+    else:
+        rep.undecided(rule, cons, f"`{ast.unparse(t)[:80]}`", f"{ri.path}:{target.lineno}")
+
+
+def none_default_polarity(ctx, rep, rule):
+    ix = ctx.ix
+    rep.rule(rule, "a default for an absent slice bound or context is applied in the branch where the value IS None; `x or default` is not `x and default`", floor=4)
+    n = 0
+    for f in ix.functions.values():
+        if f.module != "jaqalpaq.core.register" or isinstance(f.node, ast.Lambda):
+            continue
+        for st in ast.walk(f.node):
+            if isinstance(st, ast.If) and isinstance(st.test, (ast.Compare, ast.UnaryOp)):
+                e, neg = st.test, False
+                while isinstance(e, ast.UnaryOp) and isinstance(e.op, ast.Not):
+                    neg, e = not neg, e.operand
+                if not (isinstance(e, ast.Compare) and len(e.ops) == 1 and isinstance(e.comparators[0], ast.Constant) and e.comparators[0].value is None and isinstance(e.left, ast.Name)):
+                    continue
+                x = e.left.id
+                if x not in ("start", "stop", "step", "context"):
+                    continue
+                is_none = isinstance(e.ops[0], (ast.Is, ast.Eq)) != neg
+                defaults = lambda body: [a for a in body if isinstance(a, ast.Assign) and any(isinstance(t, ast.Name) and t.id == x for t in a.targets) and x not in _names(a.value)]
+                none_branch, set_branch = (st.body, st.orelse) if is_none else (st.orelse, st.body)
+                if not defaults(st.body) and not defaults(st.orelse):
+                    continue
+                n += 1
+                cons = construct_of(f, f"default-of-{x}")
+                if defaults(none_branch) and not defaults(set_branch):
+                    rep.ok(rule, cons, f"`{x}` gets its default where it is None", f"{f.path}:{st.lineno}")
+                else:
+                    rep.violation(rule, cons, f"`if {ast.unparse(st.test)}`: a given {x} is overwritten by the default and an absent one stays None", f"{f.path}:{st.lineno}")
+        for st in ast.walk(f.node):
+            if isinstance(st, ast.Assign) and len(st.targets) == 1 and isinstance(st.targets[0], ast.Name) and st.targets[0].id == "context" and isinstance(st.value, ast.BoolOp):
+                n += 1
+                cons = construct_of(f, "default-of-context")
+                if isinstance(st.value.op, ast.Or):
+                    rep.ok(rule, cons, "`context or {}`", f"{f.path}:{st.lineno}")
+                else:
+                    rep.violation(rule, cons, f"`{ast.unparse(st)}` replaces every given context by the empty one: parameters cannot be resolved in the scope of a macro call", f"{f.path}:{st.lineno}")
+    if n < 4:
+        raise AnalysisError(f"{rule}: only {n} defaults found in core/register.py")
+
+
+def validate_kind_reads(ctx, rep, rule):
+    ix = ctx.ix
+    v = _method(ix, "jaqalpaq.core.parameter.Parameter", "validate")
+    rep.rule(rule, "Parameter.validate reads `.kind` of the candidate only after establishing that it is an AnnotatedValue (otherwise a string or list argument raises AttributeError instead of JaqalError)", floor=3)
+    val = v.params[1]
+    n = 0
+    for c in ast.walk(v.node):
+        if isinstance(c, ast.Attribute) and c.attr == "kind" and isinstance(c.value, ast.Name) and c.value.id == val:
+            n += 1
+            cons = construct_of(v, "kind-read")
+            # innermost BoolOp containing the read
+            holders = [b for b in ast.walk(v.node) if isinstance(b, ast.BoolOp) and isinstance(b.op, ast.And) and any(x is c for x in ast.walk(b))]
+            guarded = False
+            for b in holders:
+                idx = next(i for i, e in enumerate(b.values) if any(x is c for x in ast.walk(e)))
+                if any(isinstance(e, ast.Call) and isinstance(e.func, ast.Name) and e.func.id == "isinstance" and isinstance(e.args[0], ast.Name) and e.args[0].id == val and "AnnotatedValue" in ast.unparse(e.args[1]) for e in b.values[:idx]):
+                    guarded = True
+            if not guarded:
+                guarded = any(taken and "isinstance" in ast.unparse(t) and "AnnotatedValue" in ast.unparse(t) and _positive_conjunct(t, lambda e: isinstance(e, ast.Call) and isinstance(e.func, ast.Name) and e.func.id == "isinstance") for t, taken in _enclosing_ifs(v.node, c) if not any(x is c for x in ast.walk(t)))
+            if guarded:
+                rep.ok(rule, cons, "under isinstance(value, AnnotatedValue)", f"{v.path}:{c.lineno}")
+            else:
+                rep.violation(rule, cons, f"`{val}.kind` is read without the isinstance(.., AnnotatedValue) test before it: `G('x')` raises AttributeError, not JaqalError", f"{v.path}:{c.lineno}")
+    if n < 3:
+        raise AnalysisError(f"{rule}: only {n} reads of .kind in Parameter.validate")
+
+
+def probability_error_terms(ctx, rep, rule):
+    ix = ctx.ix
+    init = _method(ix, "jaqalpaq.core.result.ProbabilisticSubcircuit", "__init__")
+    rep.rule(rule, "the clipping error is the difference between clipped and raw values, and the warn/fail block runs when the error EXCEEDS the warning cutoff", floor=2)
+    cons = construct_of(init, "clip-error")
+    ce = [v for v in _local_defs(init.node, "clip_err") if not isinstance(v, ast.AugAssign)]
+    if not ce:
+        rep.undecided(rule, cons, "no clip_err", init.loc())
+    else:
+        ops = [b for b in ast.walk(ce[0]) if isinstance(b, ast.BinOp)]
+        if ops and all(isinstance(b.op, ast.Sub) for b in ops):
+            rep.ok(rule, cons, f"`{ast.unparse(ce[0])}`", f"{init.path}:{ce[0].lineno}")
+        elif ops:
+            rep.violation(rule, cons, f"`{ast.unparse(ce[0])}` is not a difference: every distribution has an `error` of about twice its largest probability, far above CUTOFF_FAIL -- every emulation raises RuntimeError", f"{init.path}:{ce[0].lineno}")
+        else:
+            rep.undecided(rule, cons, f"`{ast.unparse(ce[0])}`", f"{init.path}:{ce[0].lineno}")
+    cons = construct_of(init, "warn-guard")
+    g = [st for st in iter_stmts(init.body) if isinstance(st, ast.If) and "CUTOFF_WARN" in ast.unparse(st.test)]
+    for st in g:
+        t = st.test
+        if isinstance(t, ast.Compare) and isinstance(t.ops[0], (ast.Gt, ast.GtE)) and "CUTOFF_WARN" in ast.unparse(t.comparators[0]):
+            rep.ok(rule, cons, f"`{ast.unparse(t)}`", f"{init.path}:{st.lineno}")
+        elif isinstance(t, ast.Compare) and isinstance(t.ops[0], (ast.Lt, ast.LtE)) and "CUTOFF_WARN" in ast.unparse(t.left):
+            rep.ok(rule, cons, f"`{ast.unparse(t)}`", f"{init.path}:{st.lineno}")
+        elif isinstance(t, (ast.UnaryOp, ast.Compare)):
+            rep.violation(rule, cons, f"`if {ast.unparse(t)}`: exact distributions warn (or fail) and wrong ones pass silently", f"{init.path}:{st.lineno}")
+        else:
+            rep.undecided(rule, cons, f"`{ast.unparse(t)}`", f"{init.path}:{st.lineno}")
+
+
+def block_context_restored(ctx, rep, rule):
+    ix = ctx.ix
+    m = _method(ix, "jaqalpaq.core.circuitbuilder.Builder", "in_block_context")
+    rep.rule(rule, "the builder's block-kind flag is restored when the block ends: deleted when it was absent before, reset to the old value otherwise (a flag that sticks makes a later, legal subcircuit `nested`)", floor=1)
+    cons = construct_of(m, "restore")
+    fin = [t for t in ast.walk(m.node) if isinstance(t, ast.Try) and t.finalbody]
+    if not fin:
+        rep.violation(rule, cons, "no `finally` restores the flag", m.loc())
+        return
+    ifs = [st for b in fin for st in b.finalbody if isinstance(st, ast.If)]
+    if not ifs:
+        rep.undecided(rule, cons, "restore logic not recognised", m.loc())
+        return
+    st = ifs[0]
+    e, neg = st.test, False
+    while isinstance(e, ast.UnaryOp) and isinstance(e.op, ast.Not):
+        neg, e = not neg, e.operand
+    if not (isinstance(e, ast.Compare) and isinstance(e.comparators[0], ast.Constant) and e.comparators[0].value is None):
+        rep.undecided(rule, cons, f"`{ast.unparse(st.test)}`", f"{m.path}:{st.lineno}")
+        return
+    was_absent = isinstance(e.ops[0], (ast.Is, ast.Eq)) != neg
+    absent_branch, present_branch = (st.body, st.orelse) if was_absent else (st.orelse, st.body)
+    deletes = any(isinstance(x, ast.Delete) or (isinstance(x, ast.Expr) and isinstance(x.value, ast.Call) and isinstance(x.value.func, ast.Attribute) and x.value.func.attr == "pop") for x in absent_branch)
+    resets = any(isinstance(x, ast.Assign) and isinstance(x.targets[0], ast.Subscript) for x in present_branch)
+    if deletes and resets:
+        rep.ok(rule, cons, "absent before -> deleted; present before -> old value", f"{m.path}:{st.lineno}")
+    else:
+        rep.violation(rule, cons, f"`if {ast.unparse(st.test)}`: after the first block the flag stays set (the key is re-assigned None, never deleted -- or deleted while an enclosing block of that kind is still open): `< a | b > ; subcircuit {{ .. }}` is fine but inside a parallel block's sequential sibling the nesting test misfires", f"{m.path}:{st.lineno}")
+
+
+def eof_position(ctx, rep, rule):
+    ix = ctx.ix
+    err = _method(ix, "jaqalpaq.parser.slyparse.JaqalParser", "error")
+    rep.rule(rule, "the position reported for an unexpected end of input is the end of the text: line = number of newlines + 1, column = characters after the last newline + 1; a token's own position is used when there is a token", floor=2)
+    cons = construct_of(err, "eof-line")
+    line = [v for v in _local_defs(err.node, "line") if not isinstance(v, ast.AugAssign) and "count" in ast.unparse(v)]
+    if not line:
+        rep.undecided(rule, cons, "no line computed from the text", err.loc())
+    else:
+        v = line[0]
+        ok = isinstance(v, ast.BinOp) and isinstance(v.op, ast.Add) and isinstance(v.right, ast.Constant) and v.right.value == 1 and "count" in ast.unparse(v.left)
+        if ok:
+            rep.ok(rule, cons, f"`{ast.unparse(v)}`", f"{err.path}:{v.lineno}")
+        else:
+            rep.violation(rule, cons, f"`line = {ast.unparse(v)}` is not newlines + 1", f"{err.path}:{v.lineno}")
+    cons = construct_of(err, "eof-column")
+    col = [v for v in _local_defs(err.node, "col") if not isinstance(v, ast.AugAssign) and "rfind" in ast.unparse(v)]
+    if not col:
+        rep.undecided(rule, cons, "no column computed from the text", err.loc())
+    else:
+        v = col[0]
+        # len(text) - (text.rfind("\n") + 1) + 1
+        want = isinstance(v, ast.BinOp) and isinstance(v.op, ast.Add) and isinstance(v.right, ast.Constant) and v.right.value == 1 and isinstance(v.left, ast.BinOp) and isinstance(v.left.op, ast.Sub) and "len(" in ast.unparse(v.left.left) and isinstance(v.left.right, ast.BinOp) and isinstance(v.left.right.op, ast.Add) and isinstance(v.left.right.right, ast.Constant) and v.left.right.right.value == 1
+        if want:
+            rep.ok(rule, cons, f"`{ast.unparse(v)}`", f"{err.path}:{v.lineno}")
+        elif isinstance(v, ast.BinOp):
+            rep.violation(rule, cons, f"`col = {ast.unparse(v)}` is not (characters after the last newline) + 1", f"{err.path}:{v.lineno}")
+        else:
+            rep.undecided(rule, cons, f"`{ast.unparse(v)}`", f"{err.path}:{v.lineno}")
+    cons = construct_of(err, "token-branch")
+    for st in iter_stmts(err.body):
+        if isinstance(st, ast.If) and "token" in _names(st.test):
+            s = _none_test_name(st.test, "token")
+            uses = lambda body: any(isinstance(x, ast.Attribute) and isinstance(x.value, ast.Name) and x.value.id == "token" for b in body for x in ast.walk(b))
+            if s is None:
+                rep.undecided(rule, cons, f"`{ast.unparse(st.test)}`", f"{err.path}:{st.lineno}")
+            else:
+                tok_branch = st.body if s else st.orelse
+                other = st.orelse if s else st.body
+                if uses(tok_branch) and not uses(other):
+                    rep.ok(rule, cons, "token attributes are read where there is a token", f"{err.path}:{st.lineno}")
+                else:
+                    rep.violation(rule, cons, f"`if {ast.unparse(st.test)}`: token.lineno is read when the token is None (AttributeError instead of the parse error) and the end-of-text position is reported for real tokens", f"{err.path}:{st.lineno}")
+            break
+
+
+def _none_test_name(e, name):
+    neg = False
+    while isinstance(e, ast.UnaryOp) and isinstance(e.op, ast.Not):
+        neg, e = not neg, e.operand
+    if isinstance(e, ast.Compare) and len(e.ops) == 1 and isinstance(e.comparators[0], ast.Constant) and e.comparators[0].value is None and isinstance(e.left, ast.Name) and e.left.id == name:
+        return isinstance(e.ops[0], (ast.IsNot, ast.NotEq)) != neg
+    return None
+
+
+EXTRA["C08"].append((discovery_results, "C08.13"))
+EXTRA["C13"].append((snapshot_comparisons, "C13.19"))
+EXTRA["C13"].append((none_default_polarity, "C13.20"))
+EXTRA["C14"].append((range_validation_guard, "C14.9"))
+EXTRA["C14"].append((none_default_polarity, "C14.10"))
+EXTRA["C06"].append((none_default_polarity, "C06.16"))
+EXTRA["C18"].append((validate_kind_reads, "C18.13"))
+EXTRA["C15"] = [(probability_error_terms, "C15.15")]
+EXTRA["C02"] = [(block_context_restored, "C02.10")]
+EXTRA["C16"].append((eof_position, "C16.23"))
